@@ -75,7 +75,67 @@ def usable(t):
     return True
 
 
+MESH_TRACE = r"""
+---- MODULE MeshTraceRun ----
+EXTENDS DistCore, Json, IOUtils, TLC
+Cases == JsonDeserialize(IOEnv.CASES)
+Match(x, dev) == \A r \in 0..(x.W - 1) : x.misses[r + 1] = MeshMissesC(x.grid, x.GS, r, dev)
+Verdict(x) == IF Match(x, {}) THEN "ok" ELSE IF Match(x, {"MeshOrderEnumeration"}) THEN "MeshOrderEnumeration" ELSE "unexplained"
+ASSUME JsonSerialize(IOEnv.OUT, [i \in 1..Len(Cases) |-> [verdict |-> Verdict(Cases[i]),
+                                                            expected |-> [r \in 0..(Cases[i].W - 1) |-> MeshMissesC(Cases[i].grid, Cases[i].GS, r, {})]]])
+====
+"""
+
+
+def mesh_mc(ctx, quick):
+    """MC: every arrangement of the ranks in an R x S mesh, every group size: all ranks create the same DeviceMeshes in the same
+    order and a block's state lives where its owner's group rank points; the deviation MeshOrderEnumeration (D11) must break it."""
+    spec = (tlc.SPEC_DIR / "MeshMC.tla").read_text()
+
+    def one(R, S, dev, invs):
+        cfg = (f"SPECIFICATION Spec\nCONSTANTS R = {R}\n S = {S}\n Deviations <- MC_Dev\n" + "".join(f"INVARIANT {i}\n" for i in invs)
+               + "CHECK_DEADLOCK FALSE\n")
+        return tlc.run("MeshMC", spec.replace("VARIABLE grid", "VARIABLE grid\nMC_Dev == " + dev), cfg, tag=f"{ctx.prop}-meshmc", timeout=1500)
+    for R, S in [(2, 2), (3, 2), (2, 3)] + ([] if quick else [(4, 1), (1, 4), (3, 1)]):
+        res = one(R, S, "{}", ("InvMeshCreation", "InvStateOnOwner"))
+        ctx.add_tlc(res, f"MeshMC every arrangement of {R}x{S}, every group size")
+        if not res.ok:
+            raise tlc.TLCMachineryError(f"MeshMC {R}x{S} violates {res.violated} {res.errors}")
+    w1 = one(2, 2, '{"MeshOrderEnumeration"}', ("InvMeshCreation",))
+    w2 = one(2, 2, '{"MeshOrderEnumeration"}', ("InvDeviationExact", "InvStateOnOwner"))
+    if w1.ok or not w2.ok:
+        raise tlc.TLCMachineryError("vacuity: MeshOrderEnumeration does not behave as specified (must break creation agreement exactly on non-ascending columns)")
+
+
+def check_mesh_requests(ctx, tasks, results, prop):
+    """T: the DeviceMeshes every rank had to CREATE (cache misses of get_device_mesh, in order) against DistCore!MeshMissesC."""
+    cases, where = [], []
+    for ti, (task, res) in enumerate(zip(tasks, results)):
+        if task["kind"] not in ("hsdp", "hybrid") or "meshes" not in res or res.get("errors") and any(res["errors"].values()):
+            continue
+        S, R = task["S"], task["R"]
+        rows = task.get("mesh_rows") or list(range(R))
+        grid = [[r * S + c for c in range(S)] for r in rows]
+        W = R * S
+        misses = [[m for m in res["meshes"][r] if m and isinstance(m[0], list)] for r in range(W)]
+        cases.append({"W": W, "GS": task["GS"], "grid": grid, "misses": misses})
+        where.append(ti)
+    if not cases:
+        return
+    out = tlc.oracle("MeshTraceRun", MESH_TRACE, cases, tag=f"{prop}-mesh")[0]
+    for ti, c, v in zip(where, cases, out):
+        ctx.add("mesh_request_traces")
+        rep = {"task": {k: x for k, x in tasks[ti].items() if k != "_res"}}
+        if v["verdict"] == "MeshOrderEnumeration":
+            ctx.violation(f"ranks create different DeviceMeshes (replicate groups enumerated in the order of the user's mesh {c['grid']}, "
+                          f"allocation in ascending rank order): {c['misses']}", {"kind": "mesh_order_enumeration"}, rep)
+        elif v["verdict"] != "ok":
+            ctx.violation(f"DeviceMesh creations per rank are not the ones the specification prescribes for mesh {c['grid']}, group size "
+                          f"{c['GS']}: observed {c['misses']}, expected {v['expected']}", {"kind": "mesh_requests"}, rep)
+
+
 def evaluate(ctx, tasks, results, prop):
+    check_mesh_requests(ctx, tasks, results, prop)
     cases, where = [], []
     for ti, (task, res) in enumerate(zip(tasks, results)):
         if "crash" in res:
@@ -161,6 +221,7 @@ def run(ctx):
     ctx.add_tlc(res, f"FlatShardsMC params<={p} order<={o} numel<={n} shard ranks<={k}")
     if not res.ok:
         raise tlc.TLCMachineryError(f"FlatShards spec fails ExactlyOnceAcrossShards: {res.violated}\n{res.stdout[-1500:]}")
+    mesh_mc(ctx, quick)
     for W, GS, owner, ns in [(2, 1, [0, 0, 0], 3), (2, 2, [0, 1, 0], 3)] + ([] if quick else [(4, 2, [0, 1, 0, 1], 2)]):
         r = C06.mc_dist(W, GS, owner, ns, (), ("SerialEquivalence", "ReplicaAgreement", "OwnerUnique"), ("NoRankLeftWaiting",))
         ctx.add_tlc(r, f"ShampooDist (one replicate column) R={W} GS={GS}")
